@@ -181,6 +181,87 @@ fn build_cases(name: &str, ty: &Ty) -> Vec<Case> {
     v
 }
 
+
+/// Multi-field schemas: {id, f0..f(k-1)} with types cycling over a list; payloads = every
+/// combination of per-slot choices (good, wrong kind, absent[, null]); keys are written in
+/// forward or reverse order. Returns (DEFINE text, cases).
+fn multi_cases(name: &str, k: usize, with_null: bool) -> (String, Vec<Case>) {
+    let tys: Vec<(Ty, &str, Value, Value)> = vec![
+        (Ty::I64, "\"int\"", json!(7), json!("7")),
+        (Ty::Opt(Box::new(Ty::Str)), "\"string | null\"", json!("ok"), json!(5)),
+        (Ty::Enum, "[\"x\", \"y\"]", json!("y"), json!("Y")),
+        (Ty::F64, "\"float\"", json!(2.5), json!("2.5")),
+        (Ty::Bool, "\"bool\"", json!(false), json!(0)),
+        (Ty::Opt(Box::new(Ty::I64)), "\"int | null\"", json!(-3), json!(1.5)),
+    ];
+    let fields: Vec<(String, &(Ty, &str, Value, Value))> = (0..k).map(|i| (format!("f{i}"), &tys[i % tys.len()])).collect();
+    let define = format!("DEFINE {name} FIELDS {{ id: \"int\", {} }}", fields.iter().map(|(n, t)| format!("{n}: {}", t.1)).collect::<Vec<_>>().join(", "));
+    let choices = if with_null { 4 } else { 3 };
+    let total = (choices as u64).pow(k as u32);
+    let mut cases = Vec::new();
+    let mut id = 1000i64;
+    let render = |pairs: &[(String, Value)], reverse: bool| -> String {
+        let mut v: Vec<String> = pairs.iter().map(|(k, v)| format!("{}:{}", Value::String(k.clone()), v)).collect();
+        if reverse {
+            v.reverse();
+        }
+        format!("{{{}}}", v.join(","))
+    };
+    for code in 0..total {
+        let mut c = code;
+        id += 1;
+        let mut pairs: Vec<(String, Value)> = vec![("id".into(), json!(id))];
+        let mut ok = true;
+        let mut desc = Vec::new();
+        for (fname, t) in &fields {
+            let ch = c % choices as u64;
+            c /= choices as u64;
+            let v = match ch {
+                0 => t.2.clone(),
+                1 => t.3.clone(),
+                2 => json!(ABSENT),
+                _ => Value::Null,
+            };
+            match conforms(&t.0, &v) {
+                Some(true) => {}
+                _ => ok = false,
+            }
+            if ch != 0 {
+                desc.push(format!("{fname} {}", ["good", "wrong kind", "absent", "null"][ch as usize]));
+            }
+            if v.as_str() != Some(ABSENT) {
+                pairs.push((fname.clone(), v));
+            }
+        }
+        let nbad = desc.len();
+        cases.push(Case {
+            cmd: format!("STORE {name} FOR c PAYLOAD {}", render(&pairs, code % 2 == 1)),
+            expect: Some(ok),
+            id: Some(id),
+            class: format!("schema with {k} typed fields: {} slots deviate ({})", nbad, if ok { "all allowed" } else { "at least one not allowed" }),
+        });
+    }
+    // undeclared keys next to every subset-shape: all good + extra; each optional omitted + a misspelling of it
+    let good: Vec<(String, Value)> = std::iter::once(("id".to_string(), json!(0))).chain(fields.iter().map(|(n, t)| (n.clone(), t.2.clone()))).collect();
+    let mut push = |pairs: Vec<(String, Value)>, class: String, idv: i64| {
+        let mut p = pairs;
+        p[0].1 = json!(idv);
+        cases.push(Case { cmd: format!("STORE {name} FOR c PAYLOAD {}", render(&p, idv % 2 == 1)), expect: Some(false), id: Some(idv), class });
+    };
+    let mut idv = 5000;
+    let mut g = good.clone();
+    g.push(("zz".into(), json!(1)));
+    idv += 1;
+    push(g, format!("schema with {k} typed fields: undeclared key on top of all declared keys"), idv);
+    for (i, (fname, t)) in fields.iter().enumerate() {
+        let mut g: Vec<(String, Value)> = good.iter().filter(|(n, _)| n != fname).cloned().collect();
+        g.insert((i + 1).min(g.len()), (format!("{fname}x"), t.2.clone()));
+        idv += 1;
+        push(g, format!("schema with {k} typed fields: misspelled {} key replaces the declared one", if matches!(t.0, Ty::Opt(_)) { "optional" } else { "required" }), idv);
+    }
+    (define, cases)
+}
+
 pub fn check(tier: &str) -> i32 {
     let t0 = std::time::Instant::now();
     let kf = crate::known::load();
@@ -193,10 +274,28 @@ pub fn check(tier: &str) -> i32 {
         .flat_map(|i| layouts.iter().map(move |l| (i, *l)))
         .filter(|(i, l)| !(*l == "flush" && matches!(sch[*i].2, Ty::DateTime | Ty::Date) || *l == "flush" && sch[*i].2 == Ty::Opt(Box::new(Ty::DateTime))))
         .collect();
+    let multi_ks: Vec<usize> = if tier == "quick" { vec![2, 3, 5] } else { vec![1, 2, 3, 4, 5, 6, 7] };
+    let mut work = work;
+    for (mi, _) in multi_ks.iter().enumerate() {
+        for l in &layouts {
+            work.push((sch.len() + mi, *l));
+        }
+    }
+    let multi_total: usize = multi_ks.iter().map(|k| multi_cases("x", *k, tier != "quick").1.len()).sum::<usize>() * layouts.len();
     let res = par_map(&work, threads(), |wi, (si, layout)| -> Result<Vec<(String, String, bool)>, String> {
-        let (name, tytext, ty) = &sch[*si];
-        let cases = build_cases(name, ty);
-        let mut ops = vec![Op::Cmd { text: format!("DEFINE {name} FIELDS {{ id: \"int\", f: {tytext} }}") }];
+        let multi = *si >= sch.len();
+        let mname;
+        let mty = Ty::I64;
+        let mtext;
+        let (name, tytext, ty): (&String, &String, &Ty) = if multi {
+            mname = format!("m{}", multi_ks[*si - sch.len()]);
+            mtext = String::from("(several)");
+            (&mname, &mtext, &mty)
+        } else {
+            (&sch[*si].0, &sch[*si].1, &sch[*si].2)
+        };
+        let (define, cases) = if multi { multi_cases(name, multi_ks[*si - sch.len()], tier != "quick") } else { (format!("DEFINE {name} FIELDS {{ id: \"int\", f: {tytext} }}"), build_cases(name, ty)) };
+        let mut ops = vec![Op::Cmd { text: define }];
         for c in &cases {
             ops.push(Op::CmdIsolated { text: c.cmd.clone() });
         }
@@ -302,6 +401,7 @@ pub fn check(tier: &str) -> i32 {
     for (_, _, ty) in &sch {
         stores += build_cases("x", ty).len() * layouts.len();
     }
+    stores += multi_total;
     clear_replays("C06");
     let mut nv = 0;
     for (class, ms) in &by_class {
@@ -322,7 +422,7 @@ pub fn check(tier: &str) -> i32 {
         coverage: json!({
             "evaluations": stores,
             "distinct_nontrivial": stores - open,
-            "rule": format!("{} schemas {{id: int, f: T}} with T = each of the 19 documented primitive spellings, 4 nullable unions and an enum x 23 slot values (absent, null, booleans, integers at the i64/u64 boundaries, floats incl. 1.0 and 1e308, empty / plain / wrong-case / non-ASCII strings, array, object, ISO datetime, date, impossible date, numeric string) + 16 structural cases (extra / misspelled / missing keys, wrong type for a second field, non-object payloads, empty and blank context ids, undefined type, failed redefinition followed by old- and new-schema payloads) + 4 invalid DEFINEs; every STORE goes through parse + dispatch; afterwards QUERY and REPLAY must show exactly the accepted events; distinct_nontrivial = cases for which the statement fixes the expected answer", sch.len()),
+            "rule": format!("{} schemas {{id: int, f: T}} with T = each of the 19 documented primitive spellings, 4 nullable unions and an enum x 23 slot values (absent, null, booleans, integers at the i64/u64 boundaries, floats incl. 1.0 and 1e308, empty / plain / wrong-case / non-ASCII strings, array, object, ISO datetime, date, impossible date, numeric string) + 16 structural cases (extra / misspelled / missing keys, wrong type for a second field, non-object payloads, empty and blank context ids, undefined type, failed redefinition followed by old- and new-schema payloads) + 4 invalid DEFINEs; plus schemas with k typed fields (k in {:?}; types cycling over int, string|null, enum, float, bool, int|null) x every combination of per-slot choices (good value, value of the wrong kind, absent{}) with keys written in forward or reverse order, an undeclared key on top of all declared keys, and a misspelling of each declared key in its place; every STORE goes through parse + dispatch; afterwards QUERY and REPLAY must show exactly the accepted events; distinct_nontrivial = cases for which the statement fixes the expected answer", sch.len(), multi_ks, if tier == "quick" { "" } else { ", null" }),
             "samples": build_cases("t", &Ty::I64).iter().step_by(5).take(8).map(|c| json!({"cmd": c.cmd, "expected_accept": c.expect})).collect::<Vec<_>>(),
             "schemas": sch.len(),
             "layouts": layouts,
